@@ -98,12 +98,41 @@ func H_C01_scalars() {
 
 func vInner(tag string) *ZInner { return &ZInner{N: vInt32(tag + "n"), S: vText(tag+"s", 1)} }
 
-// H_C01_nested: struct by value, pointer to struct (nil / non-nil), all leaves symbolic.
+// H_C01_nested: struct by value, pointer to struct (nil / non-nil). One leaf at a time takes every value of
+// its type (thorough tier: every pair of leaves).
 func H_C01_nested() {
-	v := &ZOuter{A: vInt32("a"), Z: vInt64("z")}
-	v.In = *vInner("in")
-	if vChoice("p", 2) == 1 {
-		v.P = vInner("p")
+	v := &ZOuter{A: 300, Z: -(1 << 40)}
+	v.In = ZInner{N: -70000, S: "in"}
+	hasP := vChoice("p", 2) == 1
+	if hasP {
+		v.P = &ZInner{N: 5, S: "p"}
+	}
+	sym := func(leaf int) {
+		switch leaf {
+		case 0:
+			v.A = vInt32("a")
+		case 1:
+			v.Z = vInt64("z")
+		case 2:
+			v.In.N = vInt32("inn")
+		case 3:
+			v.In.S = vText("ins", 2)
+		case 4:
+			if hasP {
+				v.P.N = vInt32("pn")
+			}
+		case 5:
+			if hasP {
+				v.P.S = vText("ps", 2)
+			}
+		}
+	}
+	l1 := vChoice("leaf", 6)
+	sym(l1)
+	if vTier() == 1 {
+		l2 := vChoice("leaf2", 6)
+		vAssume(l2 > l1)
+		sym(l2)
 	}
 	typMap, nameMap := vExtract(v)
 	bs, err := ToBytes(v, nameMap)
